@@ -19,6 +19,7 @@ mod c12;
 mod c13;
 mod c17;
 mod c14;
+mod c03;
 pub mod filters;
 
 use std::io::Write;
@@ -59,6 +60,7 @@ fn main() {
         "C13" => c13::run(&mut ctx),
         "C17" => c17::run(&mut ctx),
         "C14" => c14::run(&mut ctx),
+        "C03" => c03::run(&mut ctx),
         other => {
             eprintln!("unknown property {}", other);
             std::process::exit(2);
